@@ -861,6 +861,111 @@ fn main() {
             }
         }
 
+        "fault" | "compose" => {
+            for i in 0..ncases {
+                let mask = if mode == "fault" { [15u32, 15, 11, 7, 9, 3][rng.below(6) as usize] } else { rng.below(16) as u32 };
+                let mut r2 = Rng::new(rng.next());
+                // 1. a start state: random edits of free darts, or a polyhedral complex with a value pattern
+                let cx = if r2.chance(1, 2) { Some(complex(r2.below(8) as u32, 1 + r2.below(3) as u32)) } else { None };
+                let n0 = cx.as_ref().map_or(2 + r2.below(maxn) as u32, Complex::n_darts);
+                let mut m = build3(0, n0, 0, 0, mask);
+                let mut prefix: Vec<Op> = vec![Op::Obs(false)];
+                if let Some(cx) = &cx {
+                    for o in &cx.build {
+                        exec(&mut m, o);
+                        prefix.push(o.clone());
+                    }
+                    for o in pattern_ops(&mut r2, &m, mask, n0) {
+                        exec(&mut m, &o);
+                        prefix.push(o);
+                    }
+                    for _ in 0..r2.below(4) {
+                        let o = Op::Force(None, gen_cell_call(&mut r2, &m, cx));
+                        exec(&mut m, &o);
+                        prefix.push(o);
+                    }
+                } else {
+                    for _ in 0..1 + r2.below(maxops as u64) {
+                        let o = gen_op(&mut r2, &m, mask, 0, 0, false);
+                        exec(&mut m, &o);
+                        prefix.push(o);
+                    }
+                }
+                prefix.push(Op::Obs(true));
+                let gen1 = |r: &mut Rng, m: &CMap3<f64>| -> Call {
+                    match &cx {
+                        Some(cx) if r.chance(3, 4) => gen_cell_call(r, m, cx),
+                        _ => gen_call(r, &view_peek(m), mask, 0, true),
+                    }
+                };
+                if mode == "fault" {
+                    // 2. one final call or block, run once per position of the failing law call
+                    let rs = r2.next();
+                    let fin = |fa: Option<u64>, m: &CMap3<f64>| -> Op {
+                        let mut r = Rng::new(rs);
+                        if r.chance(3, 4) { Op::Force(fa, gen1(&mut r, m)) } else { Op::Block(fa, (0..2).map(|_| gen1(&mut r, m)).collect()) }
+                    };
+                    let o = fin(None, &m);
+                    let ks: Vec<Option<u64>> = {
+                        let mut probe = build3(0, n0, 0, 0, mask);
+                        for p in &prefix {
+                            exec(&mut probe, p);
+                        }
+                        reset_last();
+                        exec(&mut probe, &o); // counting run
+                        std::iter::once(None).chain((0..last_law_calls().min(16)).map(Some)).collect()
+                    };
+                    for k in ks {
+                        let mut ops = prefix.clone();
+                        ops.push(fin(k, &m));
+                        let mut it = ops.into_iter();
+                        let kk = k.map_or("n".to_string(), |x| x.to_string());
+                        run_case(&format!("{tag}{i}k{kk}"), mask, (0, n0, 0, 0), &mut |_, _| it.next(), &mut out);
+                    }
+                } else {
+                    // 2. calls generated against the evolving map, executed one by one (case b) and as one block (case a)
+                    let ncalls = 2 + r2.below(4) as usize;
+                    let mut calls = Vec::new();
+                    let mut bops = prefix.clone();
+                    // sometimes: two faces built by 1-links and glued by a 3-sew / 3-link, all in the same block
+                    let mut scripted: Vec<Call> = Vec::new();
+                    if cx.is_none() && r2.chance(1, 3) {
+                        let free: Vec<u32> = (1..m.n_darts() as u32)
+                            .filter(|&d| !peek_unused(&m, d) && m.beta::<0>(d) == 0 && m.beta::<1>(d) == 0 && m.beta::<3>(d) == 0)
+                            .collect();
+                        let k = 1 + r2.below(3) as usize;
+                        if free.len() >= 2 * k {
+                            let (l, r) = (&free[..k], &free[k..2 * k]);
+                            let closed = r2.chance(1, 2);
+                            for j in 0..k - 1 {
+                                scripted.push(Call::L(1, l[j], l[j + 1]));
+                                scripted.push(Call::L(1, r[j + 1], r[j]));
+                            }
+                            if closed && k > 1 {
+                                scripted.push(Call::L(1, l[k - 1], l[0]));
+                                scripted.push(Call::L(1, r[0], r[k - 1]));
+                            }
+                            scripted.push(if r2.chance(2, 3) { Call::S(3, l[0], r[0]) } else { Call::L(3, l[0], r[0]) });
+                            scripted.reverse();
+                        }
+                    }
+                    let ncalls = if scripted.is_empty() { ncalls } else { scripted.len() };
+                    for _ in 0..ncalls {
+                        let c = scripted.pop().unwrap_or_else(|| gen1(&mut r2, &m));
+                        let o = Op::Force(None, c.clone());
+                        exec(&mut m, &o);
+                        calls.push(c);
+                        bops.push(o);
+                    }
+                    let mut aops = prefix.clone();
+                    aops.push(Op::Block(None, calls));
+                    let mut it = bops.into_iter();
+                    run_case(&format!("{tag}{i}b"), mask, (0, n0, 0, 0), &mut |_, _| it.next(), &mut out);
+                    let mut it = aops.into_iter();
+                    run_case(&format!("{tag}{i}a"), mask, (0, n0, 0, 0), &mut |_, _| it.next(), &mut out);
+                }
+            }
+        }
         "cells" => {
             // random complexes of tetrahedra / prisms / hexahedra, value patterns, then sews and unsews
             for i in 0..ncases {
